@@ -1032,6 +1032,44 @@ def run_private(case) -> CaseResult:
                 raise Violation('filename', 'read_private_key did not '
                                 'record the file name', sig)
 
+        if via == 'file':
+            # the same file through load_keypairs (what client_keys= and
+            # server_host_keys= use), with the passphrase given directly
+            # and as the documented callable taking the file name
+            asked: List[Any] = []
+
+            def ask(filename):
+                asked.append(filename)
+                return pp
+
+            for how, arg in (('direct', pp), ('callable', ask)):
+                if how == 'callable' and pp is None:
+                    continue
+
+                try:
+                    pairs = asyncssh.load_keypairs(
+                        path, arg, unsafe_skip_rsa_key_validation=skip)
+                except (ValueError, TypeError) as exc:
+                    raise Violation(
+                        'keypair-load', 'load_keypairs(file, passphrase '
+                        'given as %s) of a file read_private_key() reads: '
+                        '%s: %s' % (how, type(exc).__name__, exc),
+                        'keypairs:%s:%s' % (how, type(exc).__name__)) \
+                        from None
+
+                if len(pairs) != 1 or \
+                        pairs[0].public_data != k2.public_data:
+                    raise Violation('keypair-load', 'load_keypairs (%s) '
+                                    'returned %d pairs / another key' %
+                                    (how, len(pairs)), 'keypairs:' + how)
+
+                labels.add('keypairs:' + how)
+
+            if asked and set(asked) != {path}:
+                raise Violation('keypair-load', 'passphrase callable was '
+                                'asked about %r, file is %r' %
+                                (asked, path), 'keypairs:callable-arg')
+
         want_comment = cbytes if fmt == 'openssh' else None
         got_comment = k2.get_comment_bytes() if via != 'file' else \
             (k2.get_comment_bytes() if k2.has_comment() else None)
@@ -2954,6 +2992,7 @@ FAMILIES = [
                'enc', 'plain', 'pbe1', 'pbe2', 'pem-enc', 'wrong-pp-refused',
                'pyca-ok', 'comment-kept', 'comment-binary', 'pp-bytes',
                'pp-str', 'pp-unicode', 'pp-empty', 'via:file', 'via:str',
+               'keypairs:callable',
                'refused:KeyEncryptionError', 'refused:KeyExportError',
                'rsa-p<q'] + ['cipher:' + c for c in PBES2_CIPHERS +
                              ['des2-cbc', 'rc4-40', 'rc4-128']]}),
